@@ -28,22 +28,22 @@ import (
 // Ev is one line of a directive-level trace. All fields are always present.
 type Ev struct {
 	Ev    string   `json:"ev"`
-	Exec  int      `json:"exec"`  // execution number (one call of one rendered function under one scenario)
-	Stamp int64    `json:"stamp"` // position in the execution's log
-	U     int      `json:"u"`     // unit (user function) id; 0 if none
-	Idx   int      `json:"idx"`   // element index / key for slice and map functions, -1 otherwise
-	K     int      `json:"k"`     // argument number for "arg"
-	G     int64    `json:"g"`     // goroutine id
-	Toks  []int    `json:"toks"`  // argument tokens / result tokens
-	Out   string   `json:"out"`   // outcome of a unit: ok err panic true false
-	Kind  string   `json:"kind"`  // ret: nil ctx errs ; emit: event name
-	Errs  []vt.Tok `json:"errs"`  // decomposition of an error
-	Leaf  int      `json:"leaf"`  // emitter leaf
-	Name  string   `json:"name"`  // emitter: task/flow name as reported
-	Same  bool     `json:"same"`  // emit FlowError/ParallelError: the error is the one returned (filled at ret)
-	CtxOK bool     `json:"ctxok"` // the unit received the directive's context
+	Exec  int      `json:"exec"`           // execution number (one call of one rendered function under one scenario)
+	Stamp int64    `json:"stamp"`          // position in the execution's log
+	U     int      `json:"u"`              // unit (user function) id; 0 if none
+	Idx   int      `json:"idx"`            // element index / key for slice and map functions, -1 otherwise
+	K     int      `json:"k"`              // argument number for "arg"
+	G     int64    `json:"g"`              // goroutine id
+	Toks  []int    `json:"toks"`           // argument tokens / result tokens
+	Out   string   `json:"out"`            // outcome of a unit: ok err panic true false
+	Kind  string   `json:"kind"`           // ret: nil ctx errs ; emit: event name
+	Errs  []vt.Tok `json:"errs"`           // decomposition of an error
+	Leaf  int      `json:"leaf"`           // emitter leaf
+	Name  string   `json:"name"`           // emitter: task/flow name as reported
+	Same  bool     `json:"same"`           // emit FlowError/ParallelError: the error is the one returned (filled at ret)
+	CtxOK bool     `json:"ctxok"`          // the unit received the directive's context
 	Prog  *Prog    `json:"prog,omitempty"` // reset: the abstract program
-	Sc    *Scen    `json:"sc,omitempty"` // reset: the scenario
+	Sc    *Scen    `json:"sc,omitempty"`   // reset: the scenario
 	Note  string   `json:"note"`
 }
 
@@ -55,16 +55,16 @@ type Unit struct {
 	Outs    []int  `json:"outs"` // flow: value types produced, in result order
 	HasErr  bool   `json:"haserr"`
 	WantCtx bool   `json:"wantctx"`
-	Pred    int    `json:"pred"`     // task: unit id of its predicate, 0 if none
-	Task    int    `json:"task"`     // pred: the task it guards
-	FB      bool   `json:"fb"`       // task: has FallbackWith
-	Invoke  bool   `json:"invoke"`   // task: Invoke(true)
-	Instr   bool   `json:"instr"`    // task: instrumented
-	Coll    int    `json:"coll"`     // selem/send/melem/mend: collection number
-	Len     int    `json:"len"`      // selem/melem: size of the collection (-1 = nil)
-	WithIdx bool   `json:"withidx"`  // selem: function takes the index
-	End     int    `json:"end"`      // selem/melem: unit id of the End hook, 0 if none
-	NArgs   int    `json:"nargs"`    // number of h.Arg-wrapped expressions this unit's option contributes (informational)
+	Pred    int    `json:"pred"`    // task: unit id of its predicate, 0 if none
+	Task    int    `json:"task"`    // pred: the task it guards
+	FB      bool   `json:"fb"`      // task: has FallbackWith
+	Invoke  bool   `json:"invoke"`  // task: Invoke(true)
+	Instr   bool   `json:"instr"`   // task: instrumented
+	Coll    int    `json:"coll"`    // selem/send/melem/mend: collection number
+	Len     int    `json:"len"`     // selem/melem: size of the collection (-1 = nil)
+	WithIdx bool   `json:"withidx"` // selem: function takes the index
+	End     int    `json:"end"`     // selem/melem: unit id of the End hook, 0 if none
+	NArgs   int    `json:"nargs"`   // number of h.Arg-wrapped expressions this unit's option contributes (informational)
 }
 
 // Prog is the abstract program a rendered function implements.
